@@ -159,6 +159,9 @@ func fieldFor(t reflect.Type, prop string) (reflect.StructField, bool) {
 }
 
 func normalizeObject(s *gen.Shape, v reflect.Value, env *gen.Env, depth int) any {
+	if v.Kind() == reflect.Map && s.Struct != "" {
+		return BadType{"a map is not the native form of a struct-mapped object"}
+	}
 	if v.Kind() == reflect.Map {
 		if v.Type().Key().Kind() != reflect.String {
 			return BadType{v.Type().String()}
